@@ -256,6 +256,14 @@ class ExprMixin:
             raise Unsupported(f"str.{attr} on a symbolic string", node)
         if isinstance(base, VClass) and "::" in base.name and attr != "__name__":
             r = self.find_method(base.name, attr)
+            if r is not None and r[0] == "repo" and f"{base.name}.{attr}" in self.externals:
+                key = f"{base.name}.{attr}"
+
+                def ext(a, k, s, e, key=key):
+                    e.used_trusted.add(f"assumed-contract:{key}")
+                    rr = e.externals[key](a, k, s, e)
+                    return rr if isinstance(rr, list) else [(s, rr)]
+                return [(st, VFunc(key, ext))]
             if r is not None and r[0] == "repo":
                 fi = r[1]
                 return [(st, VFunc(f"{base.name}.{attr}", lambda a, k, s, e, fi=fi: e.inline(fi, None, a, k, s)
@@ -563,6 +571,22 @@ class ExprMixin:
             for s, vals in self.ev_seq([node.value] + parts, st):
                 out.append((s, self.slice(vals[0], vals[1], vals[2], vals[3], s, node)))
             return out
+        if isinstance(node.slice, ast.Tuple) and any(isinstance(e, ast.Slice) for e in node.slice.elts):
+            for s, base in self.ev(node.value, st):
+                b = self.deref(base, s)
+                if not isinstance(b, VAbs):
+                    raise Unsupported("multi-dimensional slice of a non-abstract value", node)
+                vals = []
+                for p_ in node.slice.elts:
+                    if isinstance(p_, ast.Slice):
+                        lo = self.ev1_code(p_.lower, s) if p_.lower is not None else NONEV
+                        hi = self.ev1_code(p_.upper, s) if p_.upper is not None else NONEV
+                        vals.append(VTuple([VStr("slice"), lo, hi]))
+                    else:
+                        vals.append(self.ev1_code(p_, s))
+                self.cur_call_node = node
+                out.extend(b.call_method("__getitem__", [VTuple(vals)], {}, s, self))
+            return out
         for s, (base, idx) in self.ev_seq([node.value, node.slice], st):
             out.extend(self.getitem(base, idx, s, node))
         return out
@@ -768,8 +792,16 @@ class ExprMixin:
             # pointwise map over a symbolic sequence
             probe = s.fork()
             k0 = z3.Int(uid("ck"))
+            site = z3.Int(uid("site"))
             self.assign_target(g.target, sq.elem(k0), probe)
-            pv = self.ev_join(node.elt, probe)
+            saved_ci = (self.comp_index, self.comp_site)
+            self.comp_index, self.comp_site = k0, site
+            try:
+                pv = self.ev_join(node.elt, probe)
+            finally:
+                self.comp_index, self.comp_site = saved_ci
+            if hasattr(pv, "on_pointwise_alloc") and hasattr(pv, "init_ver"):
+                pv.on_pointwise_alloc(s, k0, sq.len, pv.init_ver)
             try:
                 etype = typeof(pv)
             except TypeError:
@@ -777,10 +809,15 @@ class ExprMixin:
 
             snap = s.fork()
 
-            def elem(k, s=snap, sq=sq):
+            def elem(k, s=snap, sq=sq, site=site):
                 s2 = s.fork()
                 self.assign_target(g.target, sq.elem(k), s2)
-                return self.ev_join(node.elt, s2)
+                saved_ci = (self.comp_index, self.comp_site)
+                self.comp_index, self.comp_site = k, site
+                try:
+                    return self.ev_join(node.elt, s2)
+                finally:
+                    self.comp_index, self.comp_site = saved_ci
             out.append((s, self.fresh_list(VSeq(sq.len, elem, etype), s)))
         return out
 
@@ -828,6 +865,15 @@ class ExprMixin:
                 return [(st, self.ev1_in(node.args[0], st.old))]
             if f in ("forall", "exists"):
                 return [(st, self.quantifier(f, node, st))]
+            if f == "implies" and len(node.args) == 2 and not node.keywords:
+                # lazy: a consequent that only makes sense under the antecedent (ctx['k'] when ctx is not None) is not
+                # evaluated on paths where the antecedent is excluded by the path condition
+                ante = self.truth(self.ev1_in(node.args[0], st), st)
+                a_s = z3.simplify(ante)
+                if z3.is_false(a_s) or (not z3.is_true(a_s) and not feasible(list(st.pc) + [ante], 300)):
+                    return [(st, VBool(True))]
+                cons = self.truth(self.ev1_in(node.args[1], st), st)
+                return [(st, VBool(z3.Implies(ante, cons)))]
         for s, fv in self.ev(node.func, st):
             for s2, vals in self.ev_seq(list(node.args) + [k.value for k in node.keywords], s):
                 args = vals[:len(node.args)]
